@@ -75,7 +75,10 @@ let rec parse_case = function
     { strict = !strict; na = !na; twin = !twin; cache = !cache; onpanic = !onp; onerror = !one;
       stmts = List.map stmt ss;
       (* (an optional third element names the way the handler is written: std = a net/http handler behind an adaptor) *)
-      hs = List.map (function L (id :: L ops :: _) -> (int id, List.map hop ops) | x -> failwith ("rp: bad handler " ^ to_string x)) hs;
+      (* mal (in-place edit of the allowed-methods list handed to the handler) and sh (SetHandlers with an application-owned
+         chain as the last op of a last handler) change nothing a later op or request may observe: no model op *)
+      hs = List.map (function L (id :: L ops :: _) -> (int id, List.map hop (List.filter (fun o -> o <> L [A "mal"] && o <> L [A "sh"]) ops))
+                            | x -> failwith ("rp: bad handler " ^ to_string x)) hs;
       reqs = List.map (function L [m; p; L sc] -> (str m, str p, List.map nat sc) | x -> failwith ("rp: bad req " ^ to_string x)) reqs;
       late_stmts = []; late_reqs = [] }
   | x -> failwith ("rp: bad case " ^ to_string x)
